@@ -33,9 +33,11 @@ the hand model `Model/Fail.lean` and of harness/c06.py's cursor stub:
   attributes live in `nobj` (values shown, `_SO_createValues`, dirty);
 * `setattr(self, name, value)` for a name that is NOT a column (`name ≥ ncols`) — a property of the
   application or the generated setter of a ForeignKey given by object / of an inherited column — is
-  an interface call: it behaves as the hand model's tree for that kind of keyword
-  (`Fail.extras sch c id [props name] .done`, run under the same schedule); `hasattr(cls, name)`
-  holds unless `props name = .unknown`;
+  a CALL `self.__setattr__(name, value)` through the call table (the parameter `call`): with
+  `propCall` it behaves as the hand model's tree for that kind of keyword
+  (`setProp` = `Fail.extras sch c id [props name] .done`, run under the same schedule); other call
+  tables run translated setters (`Model/FailPropX.lean`); `hasattr(cls, name)` holds unless
+  `props name = .unknown`;
 * `cache.expire(id, cls)` = `Mem.unreg`; signals are ignored (no listener: C19's business);
   `_SO_writeLock` is a flag of the world (acquire on a held lock: `deadlock`).
 
@@ -361,8 +363,8 @@ def Stmt.exec (call : CallT) (st : St) : PyMain.Stmt → Res
   | .setattrSelf n v => withR st (Expr.eval st n) fun
     | .valName c => withR st (Expr.eval st v) fun pv => ofOptRes (toVal? pv) fun x =>
         .norm (st.setW (st.w.setVal c x))
-    | .name k => withR st (Expr.eval st v) fun _ =>
-        if Nat.blt k st.w.ncols then .stuck else afterSend st (setProp st.w k) .norm
+    | .name k => withR st (Expr.eval st v) fun pv =>
+        if Nat.blt k st.w.ncols then .stuck else afterCall (call "__setattr__" [.name k, pv] [] st.w) st
     | _ => .stuck
   | .delattrSelf _ => .stuck
   | .listAssign l le => withR st (LExpr.eval st le) fun vs => .norm (st.setList l vs)
@@ -442,6 +444,21 @@ def run (call : CallT) (prog : Block) (args : List PV) (kw : PDict) (nlocals nli
                      dicts := kw :: List.replicate ndicts [] } prog).toOutcome
 
 def noCall : CallT := fun _ _ _ _ => .stuck
+
+/-- how an assignment to a property ends, as a method call -/
+def propOutcome (w : FW) (r : Fail.St × Option Err) : Outcome :=
+  match r.2 with
+  | Option.none => .ret (w.setS r.1) .none
+  | some e => .exc (w.setS r.1) e
+
+/-- the call table in which `setattr(self, <non-column name k>, value)` is the hand model's tree for that kind of
+    keyword (`setProp`) and no other method can be called -/
+def propCall : CallT := fun m args _ w =>
+  if m = "__setattr__" then
+    match args with
+    | [.name k, _] => propOutcome w (setProp w k)
+    | _ => .stuck
+  else .stuck
 
 /-- how the hand model reads the end of a method: the state, and the error if it raised; `none` when
     the method left the lock held, the suppress flag set, or got stuck -/
